@@ -135,11 +135,23 @@ class World:
             if out == "ok" and r is not None:
                 self.tracked.append({"id": len(self.tracked) + 1, "ver": 0, "obj": r, "form": a["form"]})
             return out, None
+        if op == "badtext":
+            return outcome(lambda: setattr(s, "cssText", '@namespace zq "http://zq"; zc|e { left: 0 }'))[0], None
         if op == "setseltext":
             if a["j"] > len(self.tracked):
                 return "IndexSizeErr", None
             t = self.tracked[a["j"] - 1]
-            out, _ = outcome(lambda: setattr(t["obj"], "selectorText", FORM_TEXT[a["form"]]))
+            self.nset = getattr(self, "nset", 0) + 1
+            pre = {"p|e": "p", "q|e": "q", "[p|a]": "p", ":not(p|e)": "p"}.get(a["form"])
+            nsmap = dict(s.namespaces.items())
+            if self.nset % 2 and pre in nsmap and self.attached(t["obj"]) and t["obj"].selectorList.length == 1:
+                # the same selector as a ready-made Selector OBJECT that names the URI by a prefix of its own, assigned by index
+                text = FORM_TEXT[a["form"]].replace(pre + "|", "zz|")
+                def g():
+                    t["obj"].selectorList[0] = css.Selector((text, {"zz": nsmap[pre]}))
+                out, _ = outcome(g)
+            else:
+                out, _ = outcome(lambda: setattr(t["obj"], "selectorText", FORM_TEXT[a["form"]]))
             if out == "ok":
                 t["ver"] += 1
                 t["form"] = a["form"]
